@@ -264,6 +264,7 @@ let run_case (x : sx) : Stdlib.String.t =
          | ParseCrash s -> Buffer.add_string b ("\tP=crash:" ^ hexc s)
          | ParseOk t ->
              Buffer.add_string b "\tP=ok";
+             if not (wf_node t) then Buffer.add_string b "\tWF=0";
              if mode = "tree" then Buffer.add_string b ("\tT=" ^ render_node t);
              let st = ref st_init in
              List.iteri (fun i d ->
